@@ -3,7 +3,8 @@
    Models: Bac.Bip (bvllservice.BIPSimple/BIPForeign/BIPBBMD), Bac.IpNet (vlan.IPNetwork/IPRouter,
    multiplexer, timers).  `bbmd_run b es` is the BBMD after ANY history es of arriving frames,
    own broadcasts and 1 s ticks. *)
-From Bac Require Import Base Bip BipFacts IpNet IpNetFacts BipDeliv BipDelivFacts BipDelivTie.
+From Coq Require Import Permutation.
+From Bac Require Import Base Bip BipFacts IpNet IpNetFacts BipDeliv BipDelivFacts BipDelivTie CascadeTree CascadeNet CascadeFacts CascadeStep.
 Open Scope N_scope.
 
 (* one table entry per address, under any history *)
@@ -198,6 +199,70 @@ Theorem C13_distribute_from_unlisted_refuted :
 Proof. exact distribute_unlisted_witness. Qed.
 Print Assumptions C13_distribute_from_unlisted_refuted.
 
+(* ---------------------------------------------------------------------------------------------
+   Round 3: the delivery-tree semantics EQUALS the cascade model (IpNet.v: masks, router, FIFO
+   queue) on EVERY well-formed configuration, any size, any mix of entry styles, full or partial
+   tables.  `world_of c lans sl fl now` is the IpNet world of configuration c: the nodes of c in
+   the order of all_rcvs, subnet s on LAN `sl s`, foreign device x on LAN `fl x`.  `net_ok` says the
+   placement is sound: the router sends every node / broadcast address to exactly its own LAN
+   (`homes`, computed with the same mask test as IpNet.routed), LAN `sl s` has broadcast address
+   sb_bcast s, one BBMD subnet per LAN, foreign devices on LANs without BBMD, no node address is a
+   LAN broadcast address.  `emitted ... o (originate c o p)` are the datagrams node o puts on its
+   LAN (IpNet.emit), i.e. the queue IpNet.do_event (EBcast) starts the cascade with.
+   Proof: (1) CascadeTree.cascade_is_forest — for any world, as long as no node changes state the
+   FIFO cascade's log is a permutation of the delivery forest of its queue (queue order is
+   irrelevant); (2) hop / arrive_ucast / arrive_bcast — away from its home LAN nobody hears a
+   datagram and the router copies it to the home LAN only; there exactly BipDeliv.receivers hear
+   it; (3) react_ok — reactions to Original-Broadcast / Forwarded-NPDU (and a BBMD's to
+   Distribute-Broadcast) are stateless and stay in that class; (4) pend_origin — the tree of a
+   broadcast is complete within depth 4; induction over the depth (cascade_spread).
+   The fuel hypothesis is necessary: IpNet.cascade stops with OutOfFuel otherwise (IpNet.act
+   supplies cascade_fuel = 4000 datagrams). *)
+Theorem C13_cascade_equals_delivery : forall c lans sl fl now, wf c -> net_ok c lans sl fl ->
+  forall o n p fuel, In o (all_rcvs c) ->
+  (list_sum (map (tsize (2 * (3 + n)) (world_of c lans sl fl now)) (emitted c lans sl fl now o (originate c o p))) < fuel)%nat ->
+  exists log, cascade fuel (world_of c lans sl fl now) (emitted c lans sl fl now o (originate c o p)) [] = Ok (world_of c lans sl fl now, log) /\
+              Permutation (up_addrs (world_of c lans sl fl now) log) (map dl (broadcast n c o p)).
+Proof. exact cascade_equals_delivery. Qed.
+Print Assumptions C13_cascade_equals_delivery.
+
+(* C13_broadcast_once for the cascade model itself, every size *)
+Theorem C13_cascade_broadcast_once : forall c lans sl fl now o n p fuel,
+  wf c -> net_ok c lans sl fl -> In o (all_rcvs c) ->
+  let w := world_of c lans sl fl now in
+  let q := emitted c lans sl fl now o (originate c o p) in
+  (list_sum (map (tsize (2 * (3 + n)) w) q) < fuel)%nat ->
+  exists log, cascade fuel w q [] = Ok (w, log) /\
+    let D := up_addrs w log in
+    (forall d, In d D -> d = (a_rcv d, rcv_addr o, DBcast, p)) /\
+    NoDup (map a_rcv D) /\
+    ~ In (rcv_addr o) (map a_rcv D) /\
+    (full c -> forall a, In a (all_addrs c) -> a <> rcv_addr o -> In a (map a_rcv D)).
+Proof. exact cascade_broadcast_once. Qed.
+Print Assumptions C13_cascade_broadcast_once.
+
+(* the same through the model's own event function IpNet.do_event (EBcast i p), with the fuel the
+   model supplies (cascade_fuel = 4000 datagrams) *)
+Theorem C13_do_event_broadcast_once : forall c lans sl fl now i o n p,
+  wf c -> net_ok c lans sl fl -> nth_error (all_rcvs c) i = Some o ->
+  let w := world_of c lans sl fl now in
+  (list_sum (map (tsize (2 * (3 + n)) w) (emitted c lans sl fl now o (originate c o p))) < cascade_fuel)%nat ->
+  exists log, do_event w (EBcast i p) [] = Ok (w, log) /\
+    let D := up_addrs w log in
+    Permutation D (map dl (broadcast n c o p)) /\
+    (forall d, In d D -> d = (a_rcv d, rcv_addr o, DBcast, p)) /\
+    NoDup (map a_rcv D) /\ ~ In (rcv_addr o) (map a_rcv D) /\
+    (full c -> forall a, In a (all_addrs c) -> a <> rcv_addr o -> In a (map a_rcv D)).
+Proof. exact do_event_broadcast_once. Qed.
+Print Assumptions C13_do_event_broadcast_once.
+
+(* the queue lemma on its own: any world, any queue order *)
+Theorem C13_cascade_order_irrelevant : forall n w fuel q log,
+  Forall (good n w) q -> (list_sum (map (tsize n w) q) < fuel)%nat ->
+  exists log', cascade fuel w q log = Ok (w, log') /\ Permutation log' (log ++ flat_map (tree n w) q).
+Proof. exact cascade_is_forest. Qed.
+Print Assumptions C13_cascade_order_irrelevant.
+
 (* non-vacuity *)
 Example C13_window_example :
   let b := mkBbmd (mkA 167837954 47808) [] [] true in
@@ -229,4 +294,35 @@ Example C13_any_size_example :
 Proof.
   cbv zeta. split; [apply wf_b_sound; vm_compute; reflexivity|]. split; [intros b p; reflexivity|].
   split; vm_compute; reflexivity.
+Qed.
+
+(* net_ok and wf are satisfiable together: two subnets (one listed /32, one with its subnet mask),
+   three ordinary nodes, two foreign devices on a third LAN; the cascade with 100 datagrams of fuel *)
+Definition ex_c : acfg :=
+  mkAcfg [mkSub (mkA 167837954 47808) 4294967295 (mkA 167838207 47808) [mkA 167837962 47808];
+          mkSub (mkA 167903746 47808) 4294967040 (mkA 167903999 47808) [mkA 167903754 47808; mkA 167903755 47808]]
+         [(mkA 180879400 47808, mkA 167837954 47808); (mkA 180879401 47808, mkA 167903746 47808)] keep_all.
+Definition ex_lans : list lan := [mkLan 167837952 4294967040 47808; mkLan 167903744 4294967040 47808; mkLan 180879360 4294967040 47808].
+Definition ex_sl (s : sub) : nat := if fst (sb_bbmd s) =? 167837954 then 0%nat else 1%nat.
+Definition ex_fl (x : addr * addr) : nat := 2%nat.
+Example C13_net_ok_example :
+  wf ex_c /\ net_ok ex_c ex_lans ex_sl ex_fl /\
+  (list_sum (map (tsize (2 * (3 + 0)) (world_of ex_c ex_lans ex_sl ex_fl 0))
+                 (emitted ex_c ex_lans ex_sl ex_fl 0 (RF (mkA 180879401 47808, mkA 167903746 47808))
+                          (originate ex_c (RF (mkA 180879401 47808, mkA 167903746 47808)) 9))) < 100)%nat.
+Proof.
+  split; [apply wf_b_sound; vm_compute; reflexivity|]. split.
+  - split.
+    + intros r I; cbn in I; repeat (destruct I as [<-|I]; [vm_compute; lia|]); contradiction.
+    + intros r I; cbn in I; repeat (destruct I as [<-|I]; [vm_compute; reflexivity|]); contradiction.
+    + intros s I; cbn in I; repeat (destruct I as [<-|I]; [vm_compute; reflexivity|]); contradiction.
+    + intros s I; cbn in I; repeat (destruct I as [<-|I]; [vm_compute; reflexivity|]); contradiction.
+    + intros l Hl. destruct l as [|[|[|l]]]; [vm_compute; auto | vm_compute; auto | vm_compute; auto | cbn in Hl; lia].
+    + intros s s' I I' E; cbn in I, I'.
+      repeat (destruct I as [<-|I]; [repeat (destruct I' as [<-|I']; [first [reflexivity | vm_compute in E; discriminate]|]); contradiction|]); contradiction.
+    + intros x s Ix Is; cbn in Ix, Is.
+      repeat (destruct Ix as [<-|Ix]; [repeat (destruct Is as [<-|Is]; [vm_compute; discriminate|]); contradiction|]); contradiction.
+    + intros r l I Hl. destruct l as [|[|[|l]]]; [| | | cbn in Hl; lia];
+        cbn in I; repeat (destruct I as [<-|I]; [vm_compute; discriminate|]); contradiction.
+  - vm_compute. lia.
 Qed.
